@@ -79,10 +79,11 @@ def showErr : Err → String
 structure LedgerSt where
   st : State := State.init true
   names : Names := {}
+  hist : List (Nat × State) := []     -- ledger state as of each momentum height (for reorganisations)
 
 def answer (ls : LedgerSt) (n : Names) (r : Except Err State) : LedgerSt × String :=
   match r with
-  | .ok s => ({ st := s, names := n }, "ok")
+  | .ok s => ({ ls with st := s, names := n }, "ok")
   | .error e => ({ ls with names := n }, "model-rejects:" ++ showErr e)
 
 def ledgerStep (ls : LedgerSt) : List String → Option (LedgerSt × String)
@@ -115,7 +116,14 @@ def ledgerStep (ls : LedgerSt) : List String → Option (LedgerSt × String)
     let (n, f) := n.hash from_
     let (n, ds) ← parseDescs n k rest
     pure (answer ls n (crecv ls.st c f status ds))
-  | ["L-mom", _] => some (ls, "ok")
+  | ["L-mom", h] => do
+    let h ← h.toNat?
+    pure ({ ls with hist := (h, ls.st) :: ls.hist.filter (·.1 < h) }, "ok")
+  | ["L-rollback", h] => do
+    let h ← h.toNat?
+    match ls.hist.find? (·.1 = h) with
+    | some e => pure ({ ls with st := e.2, hist := ls.hist.filter (·.1 ≤ h) }, "ok")
+    | none => pure (ls, "no-snapshot")
   | ["L-bal", a, t] =>
     let (n, a) := ls.names.addr a
     let (n, t) := n.tok t
